@@ -153,6 +153,25 @@ func drive[C any](t *testing.T, prop string, gen func(*rapid.T) C, run func(C, *
 	})
 }
 
+// rapidDriveInto is drive() for a second test of the same property: evidence goes to prop's recorder,
+// replay files carry replayProp so that the right replayer is picked.
+func rapidDriveInto[C any](t *testing.T, prop, replayProp string, rec *ev.Recorder, gen func(*rapid.T) C, run func(C, *ev.Recorder) *Failure) {
+	rapid.Check(t, func(rt *rapid.T) {
+		c := gen(rt)
+		f := run(c, rec)
+		if f == nil {
+			return
+		}
+		if isKnown(f.Sig) {
+			rec.KnownFinding(f.Sig, f.Msg)
+			return
+		}
+		path := writeReplay(replayProp, c, f)
+		rec.AddViolation(f.Sig, f.Msg, path)
+		rt.Fatalf("property %s violated [%s]: %s\nreplay: %s", prop, f.Sig, f.Msg, path)
+	})
+}
+
 func safeRun[C any](c C, rec *ev.Recorder, run func(C, *ev.Recorder) *Failure) (f *Failure) {
 	return run(c, rec)
 }
